@@ -232,7 +232,8 @@ def _static_checks(w: StackWorld, seq: Tuple[int, ...], flavour: int) -> Tuple[b
 # ---------------------------------------------------------------------------------------------
 # 2. classes given invariants: same class object; it and its subclasses can be used as before
 # ---------------------------------------------------------------------------------------------
-CLASS_SHAPES = ["plain_init", "plain_noinit", "slots", "dataclass", "namedtuple", "own_new", "dbc_init", "dbc_noinit"]
+CLASS_SHAPES = ["plain_init", "plain_noinit", "slots", "dataclass", "namedtuple", "own_new", "dbc_init", "dbc_noinit",
+                "plain_this", "dbc_property_doc"]
 SUB_SHAPES = ["none", "sub_plain", "sub_init_args", "sub_new_args", "sub_init_super"]
 
 
@@ -260,10 +261,36 @@ def _make_class(shape: str, sub: str, decorate: bool, log: List[Any]) -> Tuple[A
     def pub(self: Any) -> Any:
         return "pub"
     ns = {"pub": pub}  # type: Dict[str, Any]
-    if shape in ("plain_init", "dbc_init"):
+    if shape in ("plain_init", "dbc_init", "dbc_property_doc"):
         def __init__(self: Any, a: Any = 1) -> None:
             self.a = a
         ns["__init__"] = __init__
+    if shape == "plain_this":
+        # the first parameter of the methods is not called ``self``
+        def init_this(this: Any, a: Any = 1) -> None:
+            this.a = a
+
+        def pub_this(this: Any) -> Any:
+            return "pub"
+        init_this.__name__ = "__init__"
+        pub_this.__name__ = "pub"
+        ns["__init__"] = init_this
+        ns["pub"] = pub_this
+    if shape == "dbc_property_doc":
+        # a contracted property in a DBC parent; the class under test overrides it with an explicit docstring
+        def base_get(self: Any) -> Any:
+            return 1
+        if decorate:
+            parent = icontract.DBCMeta("Parent", (Helpers, icontract.DBC), {
+                "prop": property(icontract.ensure(lambda result: True)(base_get))})
+        else:
+            parent = type("Parent", (Helpers,), {"prop": property(base_get)})  # the bare twin has no contracts at all
+            meta = type
+
+        def own_get(self: Any) -> Any:
+            return 2
+        ns["prop"] = property(own_get, doc="explicit doc")
+        bases = (parent,)
     if shape == "slots":
         def __init__(self: Any, a: Any = 1) -> None:  # type: ignore
             self.a = a
@@ -331,7 +358,8 @@ def _use(cls: Any, args: Tuple[Any, ...]) -> Tuple[Any, ...]:
     state = []
     for name in ("a", "b"):
         state.append(getattr(inst, name, "<unset>"))
-    helpers = (cls.static_helper(3), inst.static_helper(4), cls.class_helper(), inst.class_helper(), inst._protected_helper())
+    helpers = (cls.static_helper(3), inst.static_helper(4), cls.class_helper(), inst.class_helper(), inst._protected_helper(),
+               getattr(getattr(cls, "prop", None), "__doc__", "<no prop>"), getattr(inst, "prop", "<no prop>"))
     return ("ok", tuple(state), inst.pub(), isinstance(inst, cls), helpers)
 
 
